@@ -1089,7 +1089,7 @@ fn gen_bytes(r: &mut Rng, out: &mut Out, thorough: bool) -> Vec<u8> {
 fn accessor_ops(r: &mut Rng, bytes: &[u8], thorough: bool) -> Vec<String> {
     let mut ops: Vec<String> = ACCESSORS.iter().map(|s| s.to_string()).collect();
     // the driver's list-based model of the recursive `Display` is cubic in the nesting depth: in the thorough tier
-    // (40 000 inputs, nesting to 300) the two formatting ops run on every input of at most 128 bytes and on 1 in 8
+    // (30 000 inputs, nesting to 300) the two formatting ops run on every input of at most 128 bytes and on 1 in 8
     // of the longer ones (quick tier: on every input)
     if thorough && bytes.len() > 128 && !r.chance(1, 8) {
         ops.retain(|o| o != "fmt" && o != "seq_fmt");
@@ -1124,7 +1124,7 @@ pub fn gen(a: &Args) -> String {
     let mut out = Out::default();
     out.buf.push_str(RULE);
     out.buf.push('\n');
-    let n_a = if a.thorough { 40_000 } else { 8_000 };
+    let n_a = if a.thorough { 30_000 } else { 8_000 };
     let n_w = if a.thorough { 12_000 } else { 3_000 };
     let n_s = if a.thorough { 8_000 } else { 2_000 };
     let mut id = 0u64;
